@@ -703,6 +703,14 @@ class Walker:
         return ('lit', v), T
 
     def ev_Const(self, n, pc):
+        # a named constant of the crate whose initialiser is a literal is that literal (`const END: &[u8] = b"\r\n"`)
+        b = self.prog.bodies.get(n['path'])
+        if b is not None and str(b.get('kind', '')).startswith('Const'):
+            e = b.get('body') or {}
+            while e.get('k') in ('Borrow', 'Deref', 'Scope', 'Use') and 'e' in e:
+                e = e['e']
+            if e.get('k') == 'Lit' and e.get('lk') != 'bool':
+                return self.ev_Lit(e, pc)
         return ('const', n['path']), T
 
     def ev_Static(self, n, pc):
